@@ -11,6 +11,13 @@ RULE = ("template texts over every token kind (all opcode names, aliases 0..16, 
         "tokens against real DER signatures (+ sighash flag) and SEC1 keys and against corrupted ones; self-match of minimally "
         "pushed scripts, every one-byte push (thorough), every opcode; criteria: all 16 present/absent combinations of template, "
         "exact, min, max with values at and around each bound, inputs with and without satoshis and locking scripts, 0..6 entries; "
+        "deterministic audit stream in both tiers: every operator x lengths bound-1/bound/bound+1 for bounds 0,1,2,20,75,76,255,256,"
+        "300,65535,65536 in minimal and non-minimal encodings, every opcode against its name / alias / neighbour / wildcard and in "
+        "tx.match_outputs/inputs, alias tokens 0..17 ('k', '0k', '+k', 'OP_k') against OP_0, OP_1NEGATE, OP_RESERVED, OP_1..OP_16 and "
+        "one-byte pushes, templates from from_script / from_script_impl / from_asm_string(to_asm_string) compared, exact/min/max at "
+        "0, 1, 2^8, 2^16, 2^31, 2^32, 2^53, 2^63-1, 2^63, 2^64-1 (and neighbours) on outputs and inputs, first match at every "
+        "position; every op cross-checks the alternative entry points (matches / match_impl / is_match / test_impl, criteria built "
+        "from the setters' returned clones and Default, add_outputs / add_inputs, cloned transaction); "
         "non-trivial = the model returns OK; distinct by (op, arguments)")
 TRUSTED = ["hand-written Gallina models coq/Model/Template.v (src/script/script_template.rs) and coq/Model/Criteria.v "
            "(src/transaction/match_criteria.rs, TxIn::get_finalised_script_impl), over Model/Asm.v and Model/Script.v (tied by this run)",
@@ -211,7 +218,9 @@ def generate(rng, tier):
         b = "%02x" % v
         SM(b, n_); SM(b, "OP_NOP" if n_ != "OP_NOP" else "OP_DUP"); SM(b, "OP_DATA"); SM("51" + b, "OP_1 " + n_); SM(b + "51", n_ + " 1")
         cases.append(("script.match", [b, th("0" if v == 0 else n_)]))
-        cases.append(("tx.match_outputs", ["1=%s/2=51/3=%s" % (b, b), th(n_), "-", "-", "-"]))
+        if v not in (76, 77, 78):       # a lone OP_PUSHDATAn is not a script
+            cases.append(("tx.match_outputs", ["1=%s/2=51/3=%s" % (b, b), th(n_), "-", "-", "-"]))
+            cases.append(("tx.match_inputs", ["1=%s=-/-=51=%s/3=-=%s".replace("=-=", "==") % (b, b, b), th(n_), "-", "-", "-"]))
     # aliases "0".."16" (and their neighbours) as template tokens against OP_0, OP_1NEGATE, OP_1..OP_16, OP_RESERVED and one-byte pushes
     for k in range(0, 18):
         for tok in [str(k), "%02d" % k, "+%d" % k, "OP_%d" % k]:
